@@ -30,7 +30,15 @@ class C05(Check):
         weights = dict(tree.DEFAULT_CFG["weights"])
         weights.update({"remove": 9, "pg_add": 6, "data": 8, "copy": 3, "move": 2, "flag": 2, "reopen": 3,
                         "values": 1, "rename": 1, "metadata": 0, "file": 1})
-        cfg = {"weights": weights, "max_ops": 25}
+        # constructive prefix: a data set that is the only member of one property group and a member of a later one,
+        # removed through the workspace or through its parent
+        def shared(via):
+            return [{"op": "object", "cls": "Points", "parent": 0, "name": "p", "geom": {"n": 3, "g": [1, 2, 3, 4]}, "deferred": False},
+                    {"op": "data", "obj": 0, "kind": "float", "assoc": "VERTEX", "vals": [1, 2, 3], "name": "a", "short": 0, "pg": "pg1"},
+                    {"op": "data", "obj": 0, "kind": "int", "assoc": "VERTEX", "vals": [1, 2, 3], "name": "b", "short": 0, "pg": "pg2"},
+                    {"op": "pg_add", "obj": 0, "data": [0], "name": "pg2"},
+                    {"op": "remove", "who": 1, "via": via, "ws": 0, "protect": False, "noref": False}]
+        cfg = {"weights": weights, "max_ops": 25, "prefixes": [[], [], [], [], shared("ws"), shared("parent")]}
         if tier == "thorough":
             cfg.update({"max_ops": 40, "object_classes": tree.F.OBJECT_CLASSES,
                         "group_classes": tree.F.GROUP_CLASSES})
